@@ -26,7 +26,8 @@ func init() {
 			"stateless/stateful validators: simulator-owned actor processes answering from the plan", "consensus and network actors: simulator-owned processes"},
 		Assumptions: []string{"preemption points = the instrumented sites (every statement of TXPool methods; every mutex acquisition and the slot receive in txnpool/proc); code between two sites is atomic",
 			"Go map iteration order inside TXPool methods is chosen by the plan (overlay), not by the runtime's hidden seed",
-			"porcupine Unknown (timeout) is counted as inconclusive and never reported"},
+			"porcupine Unknown (timeout) is counted as inconclusive and never reported",
+			"capacity clause: the two known overshoot mechanisms (in-flight admissions decided below capacity; consensus block transactions) have their own keys; every admission decision is observed, one taken at or above capacity is a different violation"},
 		QuickRuns: 4000, ThoroughRuns: 300000, QuickCap: 60, ThoroughCap: 900,
 		RequiredProbes: []string{"pool_rewrite_active", "lin_checked", "lock_contention", "preempted_inside_critical_section", "overlapping_operations", "old_reported", "gettxpool_at_limit", "getunverified_old", "add_duplicate_refused",
 			"srv_rewrite_active", "srv_capacity_reached", "srv_gettxpool_nonempty", "srv_lock_contention", "srv_verify_block_reply", "srv_commit"},
